@@ -17,7 +17,16 @@ def _use(name):
     USED.add(name)
 
 
+FLOAT_CONSTS = {("f64", "MANTISSA_DIGITS"): (53, "u32"), ("f64", "MAX_EXP"): (1024, "i32"), ("f64", "MIN_EXP"): (-1021, "i32"),
+                ("f32", "MANTISSA_DIGITS"): (24, "u32"), ("f32", "MAX_EXP"): (128, "i32"), ("f32", "MIN_EXP"): (-125, "i32")}
+
+
 def known_const(text):
+    m = re.fullmatch(r"(?:core::)?(f64|f32)::<impl (?:f64|f32)>::(\w+)", text)
+    if m and (m.group(1), m.group(2)) in FLOAT_CONSTS:
+        v, ty = FLOAT_CONSTS[(m.group(1), m.group(2))]
+        _use("language constant %s::%s" % m.groups())
+        return _E().IV(v, ty)
     return None
 
 
@@ -227,9 +236,14 @@ def call(ex, st, fr, callee, last, args, argops, dest):
             if lead:
                 return IV(w - ux.bit_length(), "u32")
             return IV((ux & -ux).bit_length() - 1, "u32")
-        key = ("lz" if lead else "tz", x.get_id())
-        if key in st.divcache:
-            return IV(st.divcache[key], "u32")
+        hints = st.tags.get("lz_hints")
+        nth = st.tags.get("lz_calls", 0)
+        st.tags["lz_calls"] = nth + 1
+        if hints is not None and lead and nth < len(hints) and not INT_TYPES[ity][0]:
+            k = hints[nth]
+            cond = (x == 0) if k == w else z3.And(x >= (1 << (w - 1 - k)), x < (1 << (w - k)))
+            if ex.proves(st, cond, 2000):
+                return IV(k, "u32")
         alts = []
         signed = INT_TYPES[ity][0]
         for k in range(0, w + 1):
@@ -390,6 +404,14 @@ def call(ex, st, fr, callee, last, args, argops, dest):
         ex.write_ref(st, a, vb)
         ex.write_ref(st, b, va)
         return E.UNIT
+    m = re.match(r"^(?:std|core)::mem::size_of::<<(\w+) as ([\w:]+)>::(\w+)>$", c)
+    if m:
+        aty = ex.prog.assoc_type(m.group(2).split("::")[-1], m.group(1), m.group(3))
+        sizes = {"u8": 1, "u16": 2, "u32": 4, "u64": 8, "u128": 16, "usize": 8}
+        if aty in sizes:
+            _use("core::mem::size_of (associated type resolved from the impl in the source)")
+            return IV(sizes[aty], "usize")
+        return NotImplemented
     if re.match(r"^(std|core)::mem::size_of::<(\w+)>$", c):
         sizes = {"u8": 1, "u16": 2, "u32": 4, "u64": 8, "u128": 16, "usize": 8}
         ty = re.match(r"^(?:std|core)::mem::size_of::<(\w+)>$", c).group(1)
